@@ -18,11 +18,11 @@ From SFV Require Import Base Stopping.
 From SFV.P Require Import StoppingP.
 Import ListNotations. Open Scope Z_scope.
 
-(* Repetition target k: exactly k iterations (k <= 0 behaves like 1), whatever the iterations
-   create, fresh or continued. *)
+(* Repetition target k >= 1: exactly k iterations, whatever the iterations create (zeros
+   included), fresh or continued. *)
 Theorem C07_reps_exact :
   forall tables k cont pre x rest,
-    Z.of_nat (length pre) + 1 = Z.max 1 k ->
+    1 <= k -> Z.of_nat (length pre) + 1 = k ->
     run tables (Some (mkCrit COUNT_REPS k)) cont (pre ++ x :: rest)
     = Stopped (length pre + 1) (base cont + zsum pre + x).
 Proof. exact reps_exact. Qed.
